@@ -16,7 +16,9 @@ OBLIGATIONS = [
     (P + "chunk_size_roundtrip", "std::hex chunk sizes parse back (1*HEXDIG)"),
     (P + "fcgi_roundtrip", "FastCGI record grammar (Spec) o format_output calls: STDOUT stream = concatenation of the inputs"),
     (P + "fcgi_records_wellformed", "every STDOUT record 1..65535 bytes; exactly one empty STDOUT then one END_REQUEST, last"),
-    (P + "device_conservation", "either device, any buffer size, every sequence of sputn/sputc/sync/flush/setbuf/full_buffering: written ++ buffered = input; after close nothing buffered, eof exactly once (also after the extra flush_async_chunk)"),
+    (P + "device_conservation", "either device, every io mode incl. raw, any buffer size, every sequence of sputn/sputc/sync/flush/setbuf/full_buffering: after close nothing buffered, bytes passed on = input (raw: minus its header block), eof exactly once, with the last write (also after the extra flush_async_chunk)"),
+    (P + "device_conservation_running", "at every moment (non-raw): passed to connection::write ++ buffered = written into the device"),
+    (P + "raw_header_block_stripped", "raw modes: of a stream starting with a CGI header block the device passes on exactly what follows it; the lines reach set_response_headers via add_header in order"),
     (P + "eof_flag_toggles_counterexample", "documented quirk outside the contexts' usage: close; flush; flush announces eof twice"),
     (P + "cache_copy_identical", "copy_buf: bytes passed to the next buffer = copied_data() = bytes written, for every op sequence + close"),
     (P + "framing_roundtrip_http", "HTTP: from the state set_response_headers prepared, every call sequence of a finalized response: no violation, RFC 7230 client reads exactly one head and body = concat inputs (Content-Length / chunked / until-close)"),
